@@ -38,6 +38,7 @@ import (
 	_ "verifsim/shapes/pair"
 	_ "verifsim/shapes/person"
 	_ "verifsim/shapes/rep3"
+	_ "verifsim/shapes/wide"
 )
 
 func main() {
